@@ -26,6 +26,22 @@ theorem within_reports_the_distance (d : ℝ) (hd : 0 ≤ d) : GenRs.kd_within_d
   show Real.sqrt (d * d) = d
   exact Real.sqrt_mul_self hd
 
+/-! ### `KdTree::new` (whole-body pattern): the entries handed to the external tree.  The tree's item ids are
+positions in this list; every caller reads them as indices into its own slice of points. -/
+
+theorem kd_entries_fold (pts : List (V2 ℝ)) : ∀ acc : List (V2 ℝ),
+    List.foldl (fun entries p => (let entries := entries ++ [p]; entries)) acc pts = acc ++ pts := by
+  induction pts with
+  | nil => intro acc; simp
+  | cons p r ih => intro acc; simp only [List.foldl_cons]; rw [ih]; simp
+
+/-- the entries ARE the points, in order, none skipped and none repeated: position `i` of the tree is point `i` of the
+    caller — duplicates included (two identical points in a row are two entries) -/
+theorem kd_entries_are_the_points (pts : List (V2 ℝ)) : GenRs.kd_entries pts = pts := by
+  unfold GenRs.kd_entries
+  simp only []
+  rw [kd_entries_fold]; simp
+
 /-! ### `Mesh::sample_uniform`: the cumulative-area table (regenerated loop).  The POSITION of an entry in the table is
 used as the id of the face the sample lands on, so the table has to have exactly one entry per face, in face order. -/
 
